@@ -87,7 +87,7 @@ def check(pid, tier, seed, only_report=None):
         with cf.ThreadPoolExecutor(max_workers=8) as ex:
             futs = {un: ex.submit(V.run, u, path, rl) for un, (u, path) in units.items()}
             kh = [h for h in prop.get("kani", []) if tier == "thorough" or not REG.KANI[h].get("thorough_only")]
-            kf = ex.submit(K.run, REPO, kh, 12) if kh else None
+            kf = ex.submit(_run_kani, kh) if kh else None
             lf = [ex.submit(L.run, name, work, tier) for name in prop.get("lemmas", [])]
             for un, f in futs.items():
                 vres[un] = f.result()
@@ -163,6 +163,13 @@ def check(pid, tier, seed, only_report=None):
                 samples.append(dict(obligation="K:%s" % h, kind=("bounded: " + meta.get("bound", "")) if bounded else "complete (loop-free, all bit patterns)",
                                     checks=r["checks"], covers="%d/%d" % r["covers"], seconds=r["time_s"], text=meta.get("what", "")))
             trusted.add("kani: CBMC 6.11 float bit-blasting and its powf/sqrt/fmod/floor models; Kani's default NaN/overflow float checks are ignored on purpose")
+            post = REG.POST.get(pid)
+            if post and set(kh) & set(h for h in REG.KANI if REG.KANI[h].get("covers") == "some"):
+                ob_total += REG.POST_COUNT.get(pid, 0)
+                if not kres.tool_errors:
+                    pf = post(kres)
+                    ob_discharged += REG.POST_COUNT.get(pid, 0) - len(pf)
+                    failures.extend(pf)
         # ---------------- Z
         for r in lres:
             cmds.append(r["cmd"])
@@ -230,6 +237,11 @@ def check(pid, tier, seed, only_report=None):
         print("OK property=%s tier=%s obligations=%d discharged=%d bounded=%d/%d known_findings=%d wall=%.1fs" % (
             pid, tier, ob_total, ob_discharged, ob_bounded_ok, ob_bounded, len(known_hit), wall))
     return rc
+
+
+def _run_kani(hs):
+    some = [h for h in hs if REG.KANI[h].get("covers") == "some"]
+    return K.run(REPO, hs, 16, some_covers=some)
 
 
 def _write_evidence(pid, tier, seed, prop, wall, ob_total, ob_discharged, ob_bounded, ob_bounded_ok, samples, functions,
